@@ -204,6 +204,21 @@ def run_shard(shard, rec):
             rec.count("role", t["role"])
         if rng.random() < 0.01:
             rec.sample(dict(schema=v, defs=defs, text=text))
+        # the legal degenerate definition without contents, declared beside the generated ones
+        if defs and "Def" in gen.sp and i % 5 == 0:
+            ddefs = defs + ["(Definition/Emptydef)"]
+            extra = [("Def/Emptydef", "valid"), ("Def/Emptydef/" + rng.choice(["3", "abc"]), "DEF_INVALID"),
+                     ("(Def/Emptydef/3, " + gen.spell(rng.choice(gen.plain)) + ")", "DEF_INVALID")]
+            if "Def-expand" in gen.sp:
+                extra += [("(Def-expand/Emptydef)", "valid"), ("(Def-expand/Emptydef/3)", "DEF_EXPAND_INVALID"),
+                          ("(Def-expand/Emptydef, (" + gen.spell(rng.choice(gen.plain)) + "))", "DEF_EXPAND_INVALID")]
+            for frag, expect in extra:
+                dtext = frag if expect != "valid" or rng.random() < 0.5 else text + ", " + frag
+                case = dict(schema=v, defs=ddefs, text=dtext, allow_placeholders=rng.random() < 0.5, expect=expect,
+                            kind="empty-definition")
+                rec.case((v, tuple(ddefs), dtext, expect))
+                check_case(case, rec)
+                rec.count("empty-definition", expect)
         # valid placeholder form when allowed
         if gen.values and rng.random() < 0.3:
             n = rng.choice(gen.values)
